@@ -527,7 +527,7 @@ fn check_times(ctx: &mut Ctx, c: &TimeCase) -> Outcome {
         None => format!("%{x}@"),
         Some((left, w)) => format!("%{}{w}{x}@", if left { "-" } else { "" }),
     };
-    let fmt = format!("{at}|%{x}S|%{x}+|%{x}Y-%{x}m-%{x}d+%{x}H:%{x}M:%{x}S|%{x}Y-%{x}m-%{x}d %{x}H:%{x}M\n");
+    let fmt = format!("{at}|%{x}S|%{x}+|%{x}Y-%{x}m-%{x}d+%{x}H:%{x}M:%{x}S|%{x}Y-%{x}m-%{x}d %{x}H:%{x}M|%{}\n", match x { 'A' => 'a', 'T' => 't', _ => 'c' });
     let o = ctx.find(&["c/f", "-printf", &fmt]);
     let desc = |extra: &str| format!("file c/f with {} time {secs}.{ns:09} (TZ=UTC)\nfind c/f -printf {fmt:?}\nexit {} stdout {:?} stderr {:?}\n{extra}", match x { 'A' => "access", 'T' => "modification", _ => "status-change" }, o.status, lossy(&o.stdout), lossy(&o.stderr));
     if let Some(p) = &o.panic {
@@ -536,8 +536,8 @@ fn check_times(ctx: &mut Ctx, c: &TimeCase) -> Outcome {
     let era = if secs < 0 { "before-1970" } else { "after-1970" };
     let text = lossy(&o.stdout);
     let fields: Vec<&str> = text.strip_suffix('\n').unwrap_or(&text).split('|').collect();
-    if o.status != 0 || fields.len() != 5 || !text.ends_with('\n') {
-        return fail(format!("C16:time-directive:line-incomplete-or-error:{era}"), desc("expected five '|'-separated fields, a newline and exit 0"));
+    if o.status != 0 || fields.len() != 6 || !text.ends_with('\n') {
+        return fail(format!("C16:time-directive:line-incomplete-or-error:{era}"), desc("expected six '|'-separated fields, a newline and exit 0"));
     }
     // %X@: the time stamp in decimal, seconds and a ten-digit fraction.  Before 1970 with a
     // fraction both the timespec reading (tv_sec, then tv_nsec) and the arithmetic reading are taken.
@@ -575,7 +575,22 @@ fn check_times(ctx: &mut Ctx, c: &TimeCase) -> Outcome {
     if fields[2] != want_plus {
         return fail(format!("C16:%{x}+:{frac_kind}"), desc(&format!("%{x}+ expected {want_plus:?} (what %{x}Y-%{x}m-%{x}d+%{x}H:%{x}M:%{x}S gives)")));
     }
-    Pass::new(ns % 10 == 0 || secs < 0 || c.width.is_some())
+    // %a %c %t: the time as ctime(3) writes it - day of the month padded with a blank - with the
+    // ten-digit fraction after the seconds
+    let days = secs.div_euclid(86_400);
+    let want_ctime = format!(
+        "{} {} {d:>2} {:02}:{:02}:{want_s} {y}",
+        ["Thu", "Fri", "Sat", "Sun", "Mon", "Tue", "Wed"][days.rem_euclid(7) as usize],
+        ["Jan", "Feb", "Mar", "Apr", "May", "Jun", "Jul", "Aug", "Sep", "Oct", "Nov", "Dec"][m as usize - 1],
+        sod / 3600,
+        sod % 3600 / 60
+    );
+    if fields[5] != want_ctime {
+        let l = match x { 'A' => 'a', 'T' => 't', _ => 'c' };
+        return fail(format!("C16:%{l}:{}", if d < 10 { "day-of-month-below-10" } else { "other" }), desc(&format!("%{l} expected {want_ctime:?} (ctime(3) with the fraction)")));
+    }
+    Pass::new(ns % 10 == 0 || secs < 0 || c.width.is_some() || d < 10)
+        .class_if(d < 10, "day-of-month-below-10")
         .class(frac_kind)
         .class(era)
         .class(match x { 'A' => "access-time", 'T' => "modification-time", _ => "status-change-time" })
